@@ -6,8 +6,9 @@ PROPS="${*:-$(echo "$ID" | cut -c1-3)}"
 HERE="$(cd "$(dirname "$0")/.." && pwd)"
 SRC="/tmp/seed/$ID/_out"
 DST="$HERE/seeded/$ID"
-[ -f "$SRC/patch.diff" ] || { echo "no patch for $ID"; exit 2; }
-mkdir -p "$DST"; cp "$SRC/patch.diff" "$SRC/demo.py" "$SRC/meta.json" "$DST/" 2>/dev/null
+mkdir -p "$DST"
+if [ -f "$SRC/patch.diff" ]; then cp "$SRC/patch.diff" "$SRC/demo.py" "$SRC/meta.json" "$DST/" 2>/dev/null; fi
+[ -f "$DST/patch.diff" ] || { echo "no patch for $ID"; exit 2; }
 SCR="$(mktemp -d /tmp/verif-seed.XXXXXX)"; trap 'rm -rf "$SCR"' EXIT
 rsync -a --exclude .git --exclude __pycache__ --exclude _out /repo/ "$SCR/clean/"
 rsync -a --exclude .git --exclude __pycache__ --exclude _out /repo/ "$SCR/mut/"
